@@ -635,7 +635,8 @@ class Interp(object):
             return self.wrap_result(res, op.range)
         if not isinstance(out, Vec):
             raise Undecided('out= is not a vector')
-        if out is x and getattr(self, 'alias_poison', False):
+        if out is x and getattr(self, 'alias_poison', False) and \
+                not str(op.term.key()[1]).startswith('prox['):
             # an uninterpreted operator promises nothing for op(v, out=v);
             # when the caller of the analysed expression did not alias, an
             # aliased inner call is the expression's own doing
